@@ -202,6 +202,44 @@ func (e *env[E, P, D, T]) domainIO() {
 					})
 					c.Class(fmt.Sprintf("%s/Domain.ReadFrom/%s/%s", N, r.kind, tag))
 				}
+				// ---- two domains and a trailer in one stream: ReadFrom consumes exactly the bytes it reports, so that what
+				// follows in the caller's reader is still there (a decoder that buffers ahead loses it)
+				for ri, mk := range []func(b []byte) io.Reader{
+					func(b []byte) io.Reader { return bytes.NewReader(b) },
+					func(b []byte) io.Reader { return iotest.OneByteReader(bytes.NewReader(b)) },
+					func(b []byte) io.Reader { return &chunkReader{data: b, chunks: []int{L + 5, 3, L}} },
+					func(b []byte) io.Reader { return bufio.NewReaderSize(bytes.NewReader(b), 16) },
+				} {
+					trailer := []byte{0xAA, 0xBB, 0xCC}
+					stream := append(append(append([]byte(nil), enc...), enc...), trailer...)
+					cr := &countReader{r: mk(stream)}
+					key := N + "/Domain.ReadFrom/back-to-back"
+					first, second := new(D), new(D)
+					var n1, n2 int64
+					var e1, e2 error
+					if c.Guard(key+"/panic", func() string { return tag }, func() { n1, e1 = e.in.ReadFrom(first, cr) }) {
+						continue
+					}
+					used := cr.n
+					if !c.Check("Domain.ReadFrom", key+"/consumed-more-than-reported", e1 == nil && n1 == int64(L) && used == n1, func() string {
+						return fmt.Sprintf("%s reader#%d: first of two domains in one stream: err=%v reported %d bytes (encoding has %d), %d bytes were taken from the reader", tag, ri, e1, n1, L, used)
+					}) {
+						continue
+					}
+					if c.Guard(key+"/panic", func() string { return tag }, func() { n2, e2 = e.in.ReadFrom(second, cr) }) {
+						continue
+					}
+					same := false
+					why := ""
+					if e2 == nil {
+						same, why = e.sameDomain(d, second, lg, probe)
+					}
+					rest, _ := io.ReadAll(cr)
+					c.Check("Domain.ReadFrom", key+"/second-domain-or-trailer-lost", e2 == nil && n2 == int64(L) && same && bytes.Equal(rest, trailer), func() string {
+						return fmt.Sprintf("%s reader#%d: second domain: err=%v count=%d identical=%v %s; trailer read back %x want %x", tag, ri, e2, n2, same, why, rest, trailer)
+					})
+				}
+				c.Class(fmt.Sprintf("%s/Domain.ReadFrom/back-to-back/%s", N, tag))
 				// ---- receiver that already holds another (precomputed) domain
 				{
 					other := e.in.NewDomain(1<<((lg+2)%(min(e.k, 7)+1)), nil, true)
@@ -254,4 +292,16 @@ func (e *env[E, P, D, T]) domainIO() {
 			}
 		}
 	}
+}
+
+// countReader counts the bytes handed out by the reader it wraps.
+type countReader struct {
+	r io.Reader
+	n int64
+}
+
+func (c *countReader) Read(p []byte) (int, error) {
+	k, err := c.r.Read(p)
+	c.n += int64(k)
+	return k, err
 }
